@@ -111,7 +111,7 @@ def make_trans(fam, salt, rec):
 
 
 # ------------------------------------------------------------- labellers ----
-N_LABEL = 6
+N_LABEL = 7
 
 
 def label_rule(fam, salt, id_, md):
@@ -132,6 +132,9 @@ def label_rule(fam, salt, id_, md):
         return 'nomd'
     if fam == 4:
         return None if crc(salt, id_) % 3 == 0 else 'h%d' % (crc(salt, id_) % 2)
+    if fam == 6:
+        # falsy labels that are not None: must never be treated as "ignored"
+        return [0, '', 'x', None][crc(salt, id_) % 4]
     return ['L%d' % (crc(salt, id_) % 2), 'x']   # list-valued (unhashable)
 
 
